@@ -131,7 +131,7 @@ static int reg_all() {
 	C01_REG(tab(), run_int, glm::uint8) C01_REG(tab(), run_int, glm::int16) C01_REG(tab(), run_int, glm::uint16) C01_REG(tab(), run_int, glm::int64)
 #endif
 	C01_REG(tabc(), run_carry_t, glm::uint32)
-	add_target("integer", prop_int, tab().size(), 30000, 1500000,
+	add_target("integer", prop_int, tab().size(), 30000, 800000,
 	           "instance = vec<L,integer type,Q>; every case runs bitCount findLSB findMSB bitfieldReverse bitfieldExtract bitfieldInsert (offset+bits <= width) and ext isPowerOfTwo nextPowerOfTwo prevPowerOfTwo "
 	           "isMultiple nextMultiple prevMultiple findNSB; operands: single bits, runs of ones, extremes, random (bit functions), positive overflow-free values with exact multiples / powers of two planted "
 	           "(multiple helpers); non-trivial = L >= 2, pairwise distinct components with pairwise distinct scalar results (per-function class counters)");
